@@ -62,7 +62,12 @@ func factsProto() {
 	if f1 == nil {
 		unrec("search_worker_one_message", "bool", "searchPartition not found")
 	} else {
-		known("search_worker_one_message", "bool", b(w1 == "{ defer wg.Done() result, err := partition.search(ctx, query, k) if err != nil { errorCh <- err return } resultCh <- result }"), "searchPartition sends exactly one message")
+		// … and so does the per-node worker: every error it sends is followed by return, its list is sent once, at the end
+		w2, f2 := bodyText("storage/dataset.go", "Dataset", "searchPartitionsOnNode")
+		node := f2 != nil && strings.Count(w2, "errorCh <- err") > 0 && strings.Count(w2, "errorCh <- err") == strings.Count(w2, "errorCh <- err return }") &&
+			strings.Count(w2, "resultCh <-") == 1 && strings.HasSuffix(strings.TrimSpace(w2), "resultCh <- result }") &&
+			strings.Contains(w2, "if err == io.EOF { break }") && strings.Count(w2, "break") == 1
+		known("search_worker_one_message", "bool", b(node && w1 == "{ defer wg.Done() result, err := partition.search(ctx, query, k) if err != nil { errorCh <- err return } resultCh <- result }"), "searchPartition and searchPartitionsOnNode send exactly one message each (every error send is followed by return)")
 	}
 	// ---------------- C17
 	_, f2 := findFuncBody("storage/dataset.go", "Dataset", "SizeInfo")
